@@ -62,7 +62,8 @@ def confirm_instance(inst):
             return False, obs
         return True, obs
     if inst["expect"] == "accept":
-        return obs["result"] == "unsat", obs
+        # a valid schedule is lost if the public API answers "no solution" - or cannot answer at all
+        return obs["result"] in ("unsat", "exception"), obs
     return False, obs
 
 
